@@ -317,6 +317,11 @@ def _shard_received(ctx, n: int) -> None:
     hyp_search(ctx, S.raw_cemi_frames(), oracle_received, n // 2, seed_salt=6)
 
 
+def _shard_both(ctx, n_built: int, n_received: int) -> None:
+    _shard_built(ctx, n_built)
+    _shard_received(ctx, n_received)
+
+
 def enumerate_lengths(ctx) -> None:
     """Every NPDU length 1..255 x destination kind, default flags, and the flag cube at the FT boundary."""
     base = {"code": 0x11, "addinfo": b"", "src": 0x1101, "seq": 0, "priority": 3, "repeat": False, "system_broadcast": False,
@@ -349,8 +354,7 @@ def run(ctx) -> None:
     enumerate_lengths(ctx)
     ctx.notes["service_instances"] = len(S.service_instances())
     shards = ctx.n(8, 16)
-    parallel(ctx, _shard_built, [(ctx.n(1200, 20000),)] * shards)
-    parallel(ctx, _shard_received, [(ctx.n(1000, 20000),)] * shards)
+    parallel(ctx, _shard_both, [(ctx.n(800, 20000), ctx.n(600, 20000))] * shards)
 
 
 def replay(ctx, case) -> None:
